@@ -79,7 +79,7 @@ def kinds(codes, env):
     m = re.search(r"%([A-Za-z]*)(\(?)", s)
     if m:
         nm = m.group(1).lower()
-        if m.group(2) and nm in ("get", "put", "version", "appname", "random"):
+        if m.group(2) and nm in ("get", "put", "version", "appname", "random", "dirscan"):
             return "call-" + nm
         return "percent-last" if s.endswith("%") else "percent-other"
     for ch, k in (("~", "tilde"), ("\\", "escape"), ("'", "squote"), ('"', "dquote")):
@@ -515,7 +515,10 @@ def record(ctx, exe, scripts, tag="rec", keyprefix=""):
             isnull = ret == "NULL"
             prog = dict(PROG_DEFAULT)
             prog.update({k: v for k, v in env if k in ("@N", "@V")})
-            events.append({"op": "expand", "reset": step == 0, "env": [[b(k), b(v)] for k, v in env if k[:1] != "@"],
+            hay = t + " " + " ".join(v for _, v in env)
+            dirs = [{"path": b(p), "isdir": d["isdir"], "ents": [{"name": b(nm), "kind": kd} for nm, kd in d["ents"]]}
+                    for p, d in sorted(FIXTURES.items()) if p in hay]
+            events.append({"op": "expand", "reset": step == 0, "dirs": dirs, "env": [[b(k), b(v)] for k, v in env if k[:1] != "@"],
                            "prog": [b(prog["@N"]), b(prog["@V"])], "input": b(t), "isnull": isnull,
                            "got": [] if isnull else untok(ret), "store": untok(state)})
             index.append((sid, step))
@@ -683,6 +686,60 @@ def registration_family(tier):
     return out
 
 
+FIXTURES = {}       # path -> {"isdir": bool, "ents": [(name, kind), ...]}: what record() tells the trace spec about the file system
+
+
+def make_fixtures(root):
+    """Round 5, class 6 (the environment as input): directories holding EVERY file type - regular file, directory, link to a
+    file (inside and outside the directory, and a link to a link), link to a directory, dangling link, fifo, dot file - plus an
+    empty directory, a directory without a single regular file, a link to a directory, a regular file and a missing path used
+    AS the directory.  The description handed to the spec says what each entry IS; which of them %dirscan lists is the
+    spec's rule (StatRegular), not the generator's."""
+    import shutil
+    shutil.rmtree(root, ignore_errors=True)
+    os.makedirs(root)
+    FIXTURES.clear()
+
+    def mk(dname, ents):
+        d = os.path.join(root, dname)
+        os.makedirs(d)
+        for nm, kind, *target in ents:
+            p = os.path.join(d, nm)
+            if kind == "file":
+                open(p, "w").write("x")
+            elif kind == "dir":
+                os.makedirs(p)
+            elif kind == "fifo":
+                os.mkfifo(p)
+            else:
+                os.symlink(target[0], p)
+        FIXTURES[d] = {"isdir": True, "ents": [(e[0], e[1]) for e in ents]}
+        return d
+    open(os.path.join(root, "outside.txt"), "w").write("o")
+    os.makedirs(os.path.join(root, "elsewhere"))
+    alltypes = mk("all", [("a.png", "file"), ("sub", "dir"), ("l_in", "link-to-file", "a.png"), ("l_out", "link-to-file", "../outside.txt"),
+                          ("l_dir", "link-to-dir", "sub"), ("l_gone", "dangling-link", "no-such-file"), ("pipe", "fifo"), (".rc", "file")])
+    links = mk("links", [("one", "link-to-file", "../outside.txt"), ("two", "link-to-file", "one"), ("up", "link-to-dir", ".."),
+                         ("loop", "dangling-link", "loop")])
+    nofile = mk("nofile", [("d1", "dir"), ("ld", "link-to-dir", "../elsewhere"), ("gone", "dangling-link", "../nowhere"), ("q", "fifo")])
+    empty = mk("empty", [])
+    single = mk("single", [("only.txt", "file")])
+    viaLink = os.path.join(root, "to_all")
+    os.symlink("all", viaLink)
+    FIXTURES[viaLink] = dict(FIXTURES[alltypes])
+    FIXTURES[os.path.join(root, "outside.txt")] = {"isdir": False, "ents": []}
+    FIXTURES[os.path.join(root, "missing")] = {"isdir": False, "ents": []}
+    return [alltypes, links, nofile, empty, single, viaLink, os.path.join(root, "outside.txt"), os.path.join(root, "missing")]
+
+
+def filesystem_family(tier, paths):
+    out = []
+    for p in paths:
+        out.append([([], "[%%dirscan(%s)]" % p), ([("D", p)], "x \"%%DIRSCAN($D)\"y%%dirscan( %s )" % p),
+                    ([], "%%dirscan(%s %s)|%%dirscan()" % (p, p)), ([], "[%%get(kb %%dirscan(%s))]" % p)])
+    return out
+
+
 def trace_validation(ctx, exe):
     rnd = random.Random(ctx.seed + 10)
     nscripts, nlong = (260, 8) if ctx.tier == "quick" else (3000, 40)
@@ -698,6 +755,9 @@ def trace_validation(ctx, exe):
         fams[name] = len(add)
         scripts += add
     npur = fams["purity-across-calls"]
+    fs = filesystem_family(ctx.tier, make_fixtures(os.path.join(ctx.rundir, "fx")))
+    fams["file-system-as-environment"] = len(fs)
+    scripts += fs
     events, index, texts, nrec = record(ctx, exe, scripts)
     if not events:
         raise Broken("no trace events recorded")
@@ -719,6 +779,7 @@ def trace_validation(ctx, exe):
                        "TLC (ExpandTrace) does not accept the recorded result of event %d: input(%d chars) %r... env %r got(%d chars) %r... store %r" % (
                            v["l"], len(t), t[:120], [(k, x[:20]) for k, x in env], len(ev.get("got", [])), text_of(ev.get("got", [])[:120]), ev.get("store")),
                        {"variant": "pass-aa", "history": [[list(map(list, env_)), t_] for env_, t_ in scripts[sid - 1]], "step": step,
+                        "fixture_root": os.path.join(ctx.rundir, "fx"),
                         "got": text_of(ev.get("got", []))[:2000], "store": ev.get("store")})
     # purity across calls: first and last event of a purity history are the same text in the same environment
     first = {}
@@ -786,6 +847,15 @@ def replay(ctx, path):
     if rp.get("history"):
         # a recorded history rejected by the trace specification: record it again and let TLC judge it again
         hist = [([tuple(p) for p in env], t) for env, t in rp["history"]]
+        made = None
+        if rp.get("fixture_root") and any(rp["fixture_root"] in t or any(rp["fixture_root"] in p[1] for p in env) for env, t in hist):
+            # the history names directory fixtures of the run that found it: build the same fixtures at the same place again
+            import shutil, atexit
+            made = os.path.dirname(rp["fixture_root"])
+            existed = os.path.exists(made)
+            make_fixtures(rp["fixture_root"])
+            if not existed:
+                atexit.register(lambda: shutil.rmtree(made, ignore_errors=True))
         events, index, texts, nrec = record(ctx, exe, [hist], tag="replay")
         bad = len(ctx.violations)
         if events:
